@@ -3,11 +3,12 @@
 from __future__ import annotations
 
 import ast
+import re
 import string as _string
 from typing import Dict, List, Optional, Set, Tuple
 
 from ..affine import N, ONE, NotAffine, Poly, poly_of
-from ..core import AnalysisError, FuncInfo, Repo, attr_chain, call_name, is_const, unparse, walk_no_nested
+from ..core import AnalysisError, FuncInfo, Repo, attr_chain, call_name, deviates, is_const, unparse, walk_no_nested
 from ..purity import Purity
 from ..report import Ctx
 from ..skelrules import check_skeleton
@@ -459,17 +460,29 @@ def _from_integer(ctx: Ctx, f: FuncInfo) -> None:
     lst = next((unparse(s.targets[0]) if isinstance(s, ast.Assign) else unparse(s.target) for s in f.body if isinstance(s, (ast.Assign, ast.AnnAssign)) and s.value is not None and unparse(s.value) == "[]"), None)
     if lst is None:
         raise AnalysisError(f"{f.where}: digit list not found")
-    if body != [f"{lst}.append({p} % 10)", f"{p} //= 10"]:
-        ctx.violation("C09-D1", f, loops[0], f"digits are peeled by `{'; '.join(body)}`; expected append(n % 10); n //= 10")
-        return
-    rets = [st for st in f.body if isinstance(st, ast.Return) and st.value is not None]
-    if not rets or not isinstance(f.body[-1], ast.Return):
-        ctx.violation("C09-D1", f, f.body[-1], "from_integer does not return the standardisation of the digits on its main path")
-        return
-    if unparse(rets[-1].value) in (f"cls.to_standard(reversed({lst}))", f"cls.to_standard({lst}[::-1])"):
+    peel = [f"{lst}.append({p} % 10)", f"{p} //= 10"]
+    if body != peel:
+        m = len(loops[0].body) == 2 and isinstance(loops[0].body[0], ast.Assign) and re.fullmatch(rf"\(?{p}, (\w+)\)? = divmod\({p}, 10\)", body[0])
+        if not (m and body[1] == f"{lst}.append({m.group(1)})"):
+            deviates(ctx, "C09-D1", f, loops[0], body, [peel], f"digits are peeled by `{'; '.join(body)}`; expected append(n % 10); n //= 10")
+            return
+    # what happens to the digit list between the loop and the return
+    after = f.body[f.body.index(loops[0]) + 1:]
+    flipped = False
+    while after and unparse(after[0]) == f"{lst}.reverse()":
+        flipped = not flipped
+        after = after[1:]
+    if len(after) != 1 or not isinstance(after[0], ast.Return) or after[0].value is None:
+        raise AnalysisError(f"{f.where}: what follows the digit loop is not a single return of the standardised digits")
+    got = unparse(after[0].value)
+    in_order = (f"cls.to_standard(reversed({lst}))", f"cls.to_standard({lst}[::-1])", f"cls.to_standard(tuple(reversed({lst})))", f"cls.to_standard(list(reversed({lst})))")
+    as_is = (f"cls.to_standard({lst})", f"cls.to_standard(tuple({lst}))")
+    if got in (as_is if flipped else in_order):
         ctx.ok("C09-D1", f.where, "from_integer = standardisation of the decimal digits in reading order", loops[0], f)
+    elif got in (in_order if flipped else as_is):
+        ctx.violation("C09-D1", f, after[0], f"the digits are combined as `{got}`{' after reversing the list in place' if flipped else ''}: that is least significant digit first, not reading order", robust=True)
     else:
-        ctx.violation("C09-D1", f, rets[-1], f"the digits are combined as `{unparse(rets[-1].value)}`; expected the standardisation of the digits in reading order (reversed peel order)")
+        deviates(ctx, "C09-D1", f, after[0], got, as_is if flipped else in_order, f"the digits are combined as `{got}`; expected the standardisation of the digits in reading order (reversed peel order)")
 
 
 _OLD_RUN = run
